@@ -70,3 +70,13 @@ def _bigint_backend(prop, v):
     1e308, after which load() falls back to literal_eval / the raw text): JSON text of a wire value holding such
     an int does not unmarshal like the value itself."""
     return v.get("kind") in ("text-differs-from-value", "load-json-differs") and v.get("big_int_in_wire") is True
+
+
+# ---- D15: typing.Union equality ignores member order (C08, C12) ---------------------------------
+
+@classifier("union-permutation-served-from-cache")
+def _union_perm(prop, v):
+    """Union[A, B] == Union[B, A] and they hash alike, so every equality-keyed cache (routine, graph, predicates) serves
+    the routine built for whichever spelling came first in the process."""
+    return v.get("kind") in ("permutation-served-from-cache",) or (
+        v.get("kind") == "history-dependent" and v.get("mechanism") == "union-permutation")
